@@ -184,3 +184,94 @@ Theorem C01_end_to_end_examples :
   /\ end_to_end_agree ex_codata [4] 4000 2000 2000 = true.
 Proof. exact end_to_end_example. Qed.
 Print Assumptions C01_end_to_end_examples.
+
+(* ================= the x86-64 link discharged on fragments (worker sim86) ================= *)
+
+
+(* The x86-64 link discharged for the INTEGER FRAGMENT.  Same composition as above, with H_x86 replaced
+   by the proved forward simulation of the code generator (Props/C06.v, C06_codegen_simulates_int) and the
+   proved linear well-typedness of linearized programs (C05_linearize_exact).  What replaces the
+   hypothesis is evaluated on the compiler's own intermediate results: the linearized program has only
+   `ext i64` variables and the statements Substitute / Call / Literal / Op / PrintI64 / IfC / Exit
+   (`int_frag`; e.g. every program whose `main` calls no other definition), no definition is named
+   '#...' (`plain_names`), and the emitted instruction list passes the assembler-level check `asm_wf`
+   (C14: labels unique; evaluated on the real output on every run).  H_x86 itself (all programs) stays a
+   hypothesis of C01_compile_correct_partial: calls between definitions pass continuation closures,
+   which are outside the fragment. *)
+From SCC Require Import Sem.X86Wf Proof.X86SimProg Proof.ComposeX86.
+Theorem C01_compile_correct_int_partial :
+  H_fun2core -> H_focus -> H_shrink ->
+  forall (p : fcprog) (c : cprog) (f : fsprog) (a : prog) (cs : list xcode) (nargs : nat) (lc lc' : N)
+         (args : list Z) (n : nat) (o : obs),
+    annotated_fcprog p = true -> effect_sequenced p = true -> barendregt p = true ->
+    compile_prog p = Fun2Core.Ok c -> pre_check c = true -> focus_wf c = true ->
+    focus_prog c = Backend.Ok f -> shrink_prog f = SOk a -> prog_ok a = true ->
+    x86_compile (linearize a) lc = Backend.Ok (cs, nargs, lc') ->
+    int_frag (linearize a) = true -> plain_names (linearize a) = true -> asm_wf cs = None ->
+    run_fun n p args = o -> out_ok o ->
+    (exists outer inner, fst (run_x86 outer inner cs args) = o) /\
+    (Forall (fun pz => in_i64 (snd pz)) (fst o) ->
+     bytes_of_string (render_prints (fst o)) = flat_map runtime_bytes (fst o)).
+Proof. exact compile_correct_int_partial. Qed.
+Print Assumptions C01_compile_correct_int_partial.
+
+(* H_x86 restricted to the integer fragment is a theorem *)
+Theorem C01_H_x86_int :
+  forall (p : prog) (lc : N) (cs : list xcode) (n : nat) (lc' : N) (args : list Z) (fuel : nat) (o : obs),
+    int_frag p = true -> plain_names p = true -> lin_check_prog p = true -> asm_wf cs = None ->
+    x86_compile p lc = Backend.Ok (cs, n, lc') ->
+    run_linear fuel p args = o -> defined o = true ->
+    exists outer inner, fst (run_x86 outer inner cs args) = o.
+Proof. exact Proof.X86SimTop.x86_codegen_correct_int. Qed.
+Print Assumptions C01_H_x86_int.
+
+(* the x86-side hypotheses of C01_compile_correct_int_partial are met by the linearizer's output for an
+   AxCut program of the shape `shrink` produces for a `main` that calls no other definition, and the
+   emitted code computes what the named machine computes (Proof/X86SimExample.v) *)
+From SCC Require Import Proof.X86SimExample.
+Theorem C01_compile_correct_int_example :
+  prog_ok ex_named = true /\ int_frag (linearize ex_named) = true /\ plain_names (linearize ex_named) = true /\
+  (exists n lc', x86_compile (linearize ex_named) 0 = Backend.Ok (ex_named_code, n, lc')) /\ asm_wf ex_named_code = None /\
+  run_named 50 ex_named [6; 0] = ([(true, 7); (false, 49)], OExit 7) /\
+  fst (run_x86 10 1000 ex_named_code [6; 0]) = ([(true, 7); (false, 49)], OExit 7).
+Proof. exact ex_named_hypotheses. Qed.
+Print Assumptions C01_compile_correct_int_example.
+
+(* The x86-64 link discharged for the CLOSURE fragment (Props/C06.v, C06_codegen_simulates_cf): the linearized
+   program uses only integers and closures without captured variables (`cf_frag`: Substitute / Call / Literal /
+   Op / PrintI64 / IfC / Exit / Create with an empty environment / Invoke) - the shape of first-order
+   tail-recursive integer programs, whose calls pass the return continuation as such a closure; the entry
+   definition takes integers; names of definitions and types do not start with '#'; the emitted code passes
+   asm_wf and is smaller than 2^62 - 2^30 bytes. *)
+From SCC Require Import Proof.X86SimAddr Proof.X86SimClo Proof.X86SimProgC Proof.X86SimTopC.
+Theorem C01_compile_correct_cf_partial :
+  H_fun2core -> H_focus -> H_shrink ->
+  forall (p : fcprog) (c : cprog) (f : fsprog) (a : prog) (cs : list xcode) (nargs : nat) (lc lc' : N)
+         (args : list Z) (n : nat) (o : obs),
+    annotated_fcprog p = true -> effect_sequenced p = true -> barendregt p = true ->
+    compile_prog p = Fun2Core.Ok c -> pre_check c = true -> focus_wf c = true ->
+    focus_prog c = Backend.Ok f -> shrink_prog f = SOk a -> prog_ok a = true ->
+    x86_compile (linearize a) lc = Backend.Ok (cs, nargs, lc') ->
+    cf_frag (linearize a) = true -> entry_int (linearize a) = true ->
+    plain_names (linearize a) = true -> plain_types (linearize a) = true ->
+    asm_wf cs = None -> code_small cs = true ->
+    run_fun n p args = o -> out_ok o ->
+    (exists outer inner, fst (run_x86 outer inner cs args) = o) /\
+    (Forall (fun pz => in_i64 (snd pz)) (fst o) ->
+     bytes_of_string (render_prints (fst o)) = flat_map runtime_bytes (fst o)).
+Proof. exact compile_correct_cf_partial. Qed.
+Print Assumptions C01_compile_correct_cf_partial.
+
+(* the x86-side hypotheses of C01_compile_correct_cf_partial are met by the linearizer's output for the AxCut
+   program of the shape `shrink` produces for  def f(x, acc) { if x == 0 { acc } else { f(x - 1, acc + x) } }
+   def main(x) { f(x, 0) },  and the emitted code computes what the named machine computes *)
+From SCC Require Import Proof.X86SimExampleC.
+Theorem C01_compile_correct_cf_example :
+  prog_ok exc_named = true /\ cf_frag (linearize exc_named) = true /\ entry_int (linearize exc_named) = true /\
+  plain_names (linearize exc_named) = true /\ plain_types (linearize exc_named) = true /\
+  (exists n lc', x86_compile (linearize exc_named) 0 = Backend.Ok (exc_named_code, n, lc')) /\
+  asm_wf exc_named_code = None /\ code_small exc_named_code = true /\
+  run_named 100 exc_named [10] = ([], OExit 55) /\
+  fst (run_x86 10 2000 exc_named_code [10]) = ([], OExit 55).
+Proof. exact exc_named_hypotheses. Qed.
+Print Assumptions C01_compile_correct_cf_example.
